@@ -189,6 +189,13 @@ def castLoop (casts : List (PyType × String)) : List PyVal → PyVal → R
           | none => castLoop casts rest copy
       | _ => .error .unmodelled
 
+/-- where `Rule.test` looks the nodes to cast up: the document it was given (the generated flag
+    `castSelectsInDocument`: `self.path.get_data(data, ...)`), else the working copy -/
+def castSource (doc copy : PyVal) : PyVal := if castSelectsInDocument then doc else copy
+
+theorem castSource_eq (doc copy : PyVal) : castSource doc copy = doc := by
+  unfold castSource; rw [if_pos (by rfl : castSelectsInDocument = true)]
+
 /-- `rule.test(data, _data_copy=copy)`: returns the rule test and the copy afterwards -/
 def RuleM.test (r : RuleM) (doc : PyVal) (copy : PyVal) : Except Exc (RuleTestR × PyVal) := do
   let _ ← DataV.ofPy doc
@@ -196,7 +203,7 @@ def RuleM.test (r : RuleM) (doc : PyVal) (copy : PyVal) : Except Exc (RuleTestR 
     let t ← ruleTestOn r doc
     pure (t, copy)
   else
-    let copy' ← match ← selection r.path doc with
+    let copy' ← match ← selection r.path (castSource doc copy) with
       | none => pure copy
       | some sub => castLoop r.cast sub copy
     let t ← ruleTestOn r copy'
